@@ -88,7 +88,8 @@ type busWriter struct {
 }
 
 func (w *busWriter) Write(p []byte) (n int, err error) {
-	if uint32(len(p)) >= w.o+w.end {
+	// refuse as a whole a write that does not fit in what is left of the bank window:
+	if uint64(w.start)+uint64(w.o)+uint64(len(p)) > uint64(w.end) {
 		err = io.ErrUnexpectedEOF
 		return
 	}
